@@ -189,10 +189,12 @@ macro_rules! battery {
                         let times: Vec<i64> = (0..ntr).map(|i| b + (i as i64) * (1 + cc.rem_euclid(40_000_000))).collect();
                         let idx: Vec<u8> = (0..ntr).map(|i| ((d >> (2 * i)) & 3) as u8 % (nty as u8 + ((a / 36).rem_euclid(5) == 0) as u8)).collect();
                         let offs: Vec<i32> = (0..nty).map(|i| (((e >> (8 * i)) & 0xff) as i32 - 128) * 900).collect();
-                        const FOOT: [&str; 16] = ["", "<+01>-1", "HST10", "CET-1CEST,M3.5.0,M10.5.0/3", "EST5EDT,M3.2.0,M11.1.0", "AEST-10AEDT,M10.1.0,M4.1.0/3",
+                        const FOOT: [&str; 24] = ["", "<+01>-1", "HST10", "CET-1CEST,M3.5.0,M10.5.0/3", "EST5EDT,M3.2.0,M11.1.0", "AEST-10AEDT,M10.1.0,M4.1.0/3",
                             "X-1Y,J59,J300", "X-1Y,J60,J365/25", "X-1Y,59,300", "X-1Y,0/0,364", "IST-2IDT,M3.4.4/26,M10.5.0", "X-1Y,M13.1.0,M3.1.0", "X-1Y,M3.0.0,M10.6.0",
-                            "X-1Y,J100,J366", "X-1Y,M3.1.0,M13.1.0", "X-1Y,M2.5.1/-3,M6.5.6/24:30:30"];
-                        let footer = FOOT[((a / 180).rem_euclid(16)) as usize];
+                            "X-1Y,J100,J366", "X-1Y,M3.1.0,M13.1.0", "X-1Y,M2.5.1/-3,M6.5.6/24:30:30",
+                            "IST-5:30", "ACST-9:30ACDT,M10.1.0,M4.1.0/3", "<+1245>-12:45<+1345>-13:45,M9.5.0/2:45,M4.1.0/3:45", "NST3:30NDT,M3.2.0,M11.1.0",
+                            "<-0330>+3:30:15", "AAA-0:00:01", "WET0WEST-1:15,M3.5.0/1,M10.5.0", "XYZ+1:02:03ABC-0:30,100/1:15,J200/23:59:59"];
+                        let footer = FOOT[((a / 180).rem_euclid(24)) as usize];
                         let block = |v8: bool| -> Vec<u8> {
                             let mut o = Vec::new();
                             o.extend_from_slice(b"TZif");
